@@ -4,7 +4,7 @@
 set -u
 patch=$(realpath "$1"); prop=$2; tier=${3:-quick}
 wt=$(mktemp -d /tmp/mut_XXXXXX)
-git -C /repo worktree add -q --detach "$wt" HEAD >/dev/null 2>&1 || { echo "worktree failed"; exit 3; }
+git -C /repo worktree add -q --detach "$wt" ${BASE:-HEAD} >/dev/null 2>&1 || { echo "worktree failed"; exit 3; }
 ( cd "$wt" && git apply "$patch" ) || { echo "patch does not apply"; git -C /repo worktree remove --force "$wt"; exit 3; }
 cd /verif
 VT_REPO="$wt" ./check "$prop" "$tier" > "$wt.log" 2>&1; rc=$?
